@@ -493,10 +493,15 @@ int hwloc_topology_diff_build(hwloc_topology_t topo1,
  * Applying diffs
  */
 
+/* If info_index is not NULL, it returns the index of the info pair modified by an info entry.
+ * If it already contains such an index (instead of -1), that pair is modified instead of looking for the first matching one,
+ * so that a rollback restores exactly what was modified.
+ */
 static int
 hwloc_apply_diff_one(hwloc_topology_t topology,
 		     hwloc_topology_diff_t diff,
-		     unsigned long flags)
+		     unsigned long flags,
+		     int *info_index)
 {
 	int reverse = !!(flags & HWLOC_TOPOLOGY_DIFF_APPLY_REVERSE);
 
@@ -551,11 +556,15 @@ hwloc_apply_diff_one(hwloc_topology_t topology,
 			int found = 0;
 			for(i=0; i<infos->count; i++) {
 				struct hwloc_info_s *info = &infos->array[i];
+				if (info_index && *info_index >= 0 && i != (unsigned) *info_index)
+					continue;
 				if (!strcmp(info->name, name)
 				    && !strcmp(info->value, oldvalue)) {
 					free(info->value);
 					info->value = strdup(newvalue);
 					found = 1;
+					if (info_index)
+						*info_index = (int) i;
 					break;
 				}
 			}
@@ -581,7 +590,8 @@ int hwloc_topology_diff_apply(hwloc_topology_t topology,
 			      unsigned long flags)
 {
 	hwloc_topology_diff_t tmpdiff, tmpdiff2;
-	int err, nr;
+	int *info_indexes;
+	int err, nr, i, j;
 
 	if (!(topology->state & HWLOC_TOPOLOGY_STATE_IS_LOADED)) {
 	  errno = EINVAL;
@@ -597,24 +607,38 @@ int hwloc_topology_diff_apply(hwloc_topology_t topology,
 		return -1;
 	}
 
+	/* remember which info pair each entry modifies, in case we have to rollback */
+	nr = 0;
+	for(tmpdiff = diff; tmpdiff; tmpdiff = tmpdiff->generic.next)
+		nr++;
+	info_indexes = malloc((nr ? nr : 1) * sizeof(*info_indexes));
+	if (!info_indexes)
+		return -1;
+
 	tmpdiff = diff;
 	nr = 0;
 	while (tmpdiff) {
 		nr++;
-		err = hwloc_apply_diff_one(topology, tmpdiff, flags);
+		info_indexes[nr-1] = -1;
+		err = hwloc_apply_diff_one(topology, tmpdiff, flags, &info_indexes[nr-1]);
 		if (err < 0)
 			goto cancel;
 		tmpdiff = tmpdiff->generic.next;
 	}
+	free(info_indexes);
 	return 0;
 
 cancel:
-	tmpdiff2 = tmpdiff;
-	tmpdiff = diff;
-	while (tmpdiff != tmpdiff2) {
-		hwloc_apply_diff_one(topology, tmpdiff, flags ^ HWLOC_TOPOLOGY_DIFF_APPLY_REVERSE);
-		tmpdiff = tmpdiff->generic.next;
+	/* undo the nr-1 entries that were applied, starting with the last one
+	 * since an entry may modify what a previous entry already changed.
+	 */
+	for(i=nr-1; i>=1; i--) {
+		tmpdiff2 = diff;
+		for(j=1; j<i; j++)
+			tmpdiff2 = tmpdiff2->generic.next;
+		hwloc_apply_diff_one(topology, tmpdiff2, flags ^ HWLOC_TOPOLOGY_DIFF_APPLY_REVERSE, &info_indexes[i-1]);
 	}
+	free(info_indexes);
 	errno = EINVAL;
 	return -nr; /* return the index (starting at 1) of the first element that couldn't be applied */
 }
